@@ -76,6 +76,24 @@ func init() {
 		Rules:       []string{"E1"},
 		Run: func(c *Ctx) {
 			RunE1(c, "C08", append(append([]Ob{}, obs...), sharedObs["C08"]...))
+			// argument roles of the revocation sinks (E9): token / token id, subject and client id are all strings
+			tok := []string{"ParseTokenRevocationRequest#0", "GetRefreshTokenInfo#1", "getTokenIDAndSubjectForRevocation#0"}
+			sub := []string{"zero", "GetRefreshTokenInfo#0", "getTokenIDAndSubjectForRevocation#1"}
+			cid := []string{"ParseTokenRevocationRequest#2"}
+			RunArgSources(c, "E9.revoke.provider.roles", "op.Revoke", "RevokeToken", 1, tok, "the storage revokes the presented token or the id it resolved to")
+			RunArgSources(c, "E9.revoke.provider.roles", "op.Revoke", "RevokeToken", 2, sub, "the subject is the one the token resolved to, or empty")
+			RunArgSources(c, "E9.revoke.provider.roles", "op.Revoke", "RevokeToken", 3, cid, "the revoking client is the authenticated caller")
+			RunArgSources(c, "E9.revoke.provider.roles", "op.Revoke", "GetRefreshTokenInfo", 1, cid, "refresh tokens are looked up for the authenticated caller")
+			RunArgSources(c, "E9.revoke.provider.roles", "op.Revoke", "GetRefreshTokenInfo", 2, tok, "the presented token is looked up")
+			RunArgSources(c, "E9.revoke.provider.roles", "op.Revoke", "getTokenIDAndSubjectForRevocation", 2, tok, "the presented token is resolved")
+			ltok := []string{"param:r.Data.Token", "GetRefreshTokenInfo#1", "getTokenIDAndSubjectForRevocation#0"}
+			lcid := []string{"r.Client.GetID#0"}
+			RunArgSources(c, "E9.revoke.legacy-server.roles", "op.(*LegacyServer).Revocation", "RevokeToken", 1, ltok, "sibling of op.Revoke")
+			RunArgSources(c, "E9.revoke.legacy-server.roles", "op.(*LegacyServer).Revocation", "RevokeToken", 2, sub, "sibling of op.Revoke")
+			RunArgSources(c, "E9.revoke.legacy-server.roles", "op.(*LegacyServer).Revocation", "RevokeToken", 3, lcid, "sibling of op.Revoke")
+			RunArgSources(c, "E9.revoke.legacy-server.roles", "op.(*LegacyServer).Revocation", "GetRefreshTokenInfo", 1, lcid, "sibling of op.Revoke")
+			RunArgSources(c, "E9.revoke.legacy-server.roles", "op.(*LegacyServer).Revocation", "GetRefreshTokenInfo", 2, ltok, "sibling of op.Revoke")
+			RunArgSources(c, "E9.revoke.legacy-server.roles", "op.(*LegacyServer).Revocation", "getTokenIDAndSubjectForRevocation", 2, ltok, "sibling of op.Revoke")
 			RunFieldSources(c, "E8.access-token.keyset-default", "op", "Provider", "accessTokenKeySet", "OpenIDKeySet", "JWT access tokens must be verified with the provider's own (storage-backed) key set unless the application explicitly supplies one")
 			RunIssuerCoverage(c, "E7.routes.issuer-interceptor", []string{"KeysEndpoint"}) // handlers verify tokens / assertions against the issuer the interceptor puts into the context
 			RunTypeWriteDiscipline(c, "E6.introspection-response-writers", "oidc", "IntrospectionResponse", []string{"op"},
